@@ -51,6 +51,7 @@ def run(ctx, rep, tier):
     rep.rule("G18b", "no assert()-based validation of arguments in public Circuit mutators", min_instances=1)
     rep.rule("P2", "params.check() first in the algorithm entry points", min_instances=3)
     rep.rule("VB", "a throwing validation never reads a member the same function has already overwritten (rejected calls leave the object unchanged)", 0)
+    rep.rule("FP", "the parameter check bounds each overlap by the window size of its own family", 3)
     rep.rule("T4", "ColoquinteParameters(e) passes its own check for every effort e in 1..9", min_instances=9)
     check_b1(ctx, rep)
     check_b2(ctx, rep)
@@ -61,6 +62,11 @@ def run(ctx, rep, tier):
     c19_defaults.run(ctx, rep)
     from .c07 import check_vb
     check_vb(ctx, prog, rep, False, "VB")
+    from .common import check_family_pairing
+    cf = [f_ for f_ in prog.all_funcs(with_lambdas=False) if f_.cls == CQ + "RoughLegalizationParameters" or
+          (f_.unit.name.endswith("parameters.cpp") and f_.cls is None)]
+    if check_family_pairing(ctx, rep, "FP", cf, CQ + "RoughLegalizationParameters") == 0:
+        rep.unknown("FP", None, None, "overlap < size checks", "no comparison of a window size with an overlap found in the parameter check (shape changed)")
     p2_set = {CQ + q for q in c10.CHECK_FIRST}
     for q in c10.CHECK_FIRST:
         c10.check_params_first(ctx, rep, prog.func1(CQ + q), p2_set)
